@@ -1072,10 +1072,14 @@ def run(rep):
         i = run_impl(impl, q)
         s = spec_run(q)
         concrete = contradicts_spec(q, i)
+        firstdiff = next((("line %d: model %r / main %r" % (n + 1, a, b)) for n, (a, b) in
+                          enumerate(zip(m[0] + ["<end>"] * 99, i[0] + ["<end>"] * 99)) if a != b), "same lines")
         rep.violation("corr", {"program": q, "source": to_cb(q), "model": m, "impl": i, "spec": s, "origin": origin[k],
+                               "first_difference": firstdiff,
                                "broken": "correspondence Model.run_program = main (carrier of every C12 theorem)"},
                       "main and the proved model disagree on a generated interface program "
-                      "(model %s / main %s; property oracle %s)" % (m[1], i[1], "also disagrees with main" if concrete else "agrees with main"),
+                      "(outcome model %s / main %s; %s; property oracle %s)" % (
+                          m[1], i[1], firstdiff, "also disagrees with main" if concrete else "agrees with main"),
                       no_failing_input=not concrete)
     for j in badp[:3]:
         k = perm_idx[j]
